@@ -831,6 +831,17 @@ fn check_field255(run: &Run) {
         if !ok {
             run.fail(&format!("api/{name}/decode_noncanonical"), &format!("{name}: decode of {x} wrong"), json!({"field": name, "bytes": pvh::engine::hex(&b)}));
         }
+        // the other byte routes (TryFrom<&[u8]>, which the bulk vector decoder and serde go through) must agree
+        // with decode: canonical strings give the same element, strings >= p (incl. a set top bit) are refused
+        let t = Field255::try_from(&b[..]);
+        let ok = match (&t, &d) {
+            (Ok(f), Ok(g)) => f == g,
+            (Err(_), Err(_)) => true,
+            _ => false,
+        };
+        if !ok {
+            run.fail(&format!("api/{name}/try_from_bytes_vs_decode"), &format!("{name}: TryFrom<&[u8]> and decode disagree on the bytes of {x} (TryFrom {}, decode {})", if t.is_ok() { "accepts" } else { "refuses" }, if d.is_ok() { "accepts" } else { "refuses" }), json!({"field": name, "bytes": pvh::engine::hex(&b)}));
+        }
         let m = x & &mask;
         let r = Field255::try_from_random(&b);
         let ok = match &r {
